@@ -130,15 +130,18 @@ PROPS["C10"] = {
     },
 }
 
+SLOW = {"slow": 1}      # 100 Hz timer, all times of the alphabet in units of 10 ms (another branch of the time-to-tick conversion)
 PROPS["C11"] = {
     "level": "model_checking",
     "technique": "explicit-state BFS over heartbeat frames, 1016h writes, counter/state queries and ticks against a reference monitor per consumer entry",
-    "text": "Consumer tables of 1..4 entries (6 initial configurations). Events: heartbeat frames of two monitored nodes and one unmonitored node with states {0,4,5,127}; SDO write of {node X|Y, time 0|2|3} and {0,0} to every entry followed by a read-back; CONmtGetHbEvents and CONmtLastHbState for the three nodes; tick; 765 ticks of silence (counter saturation); NMT stop/start/reset communication. After every step the CONmtHbConsEvent / CONmtHbConsChange callbacks (multiset per node), the return values of the queries, the SDO verdict (0604 0043h and no change for a node that is already monitored, acceptance otherwise) and the read-back value are compared with the reference; entries not addressed by a write must keep their monitoring.",
+    "text": "Consumer tables of 1..4 entries (6 initial configurations). Events: heartbeat frames of two monitored nodes and one unmonitored node with states {0,4,5,127}; SDO write of {node X|Y, time 0|2|3} and {0,0} to every entry followed by a read-back; CONmtGetHbEvents and CONmtLastHbState for the three nodes; tick; 765 ticks of silence (counter saturation); NMT stop/start/reset communication. After every step the CONmtHbConsEvent / CONmtHbConsChange callbacks (multiset per node), the return values of the queries, the SDO verdict (0604 0043h and no change for a node that is already monitored, acceptance otherwise) and the read-back value are compared with the reference; entries not addressed by a write must keep their monitoring. Two of the tables run once more on a 100 Hz timer with every time given in units of 10 ms.",
     "note": "'already monitored' is read literally (any entry, including the written one, configured with that node and a non-zero time); depth-bounded",
     "jobs": {
-        "quick": [J("c11", 0, depth=8, deadline=100), J("c11", 1, depth=6, deadline=100), J("c11", 2, depth=6, deadline=100), J("c11", 3, depth=5, deadline=100), J("c11", 4, depth=5, deadline=100), J("c11", 5, depth=5, deadline=100)],
+        "quick": [J("c11", 0, depth=8, deadline=100), J("c11", 1, depth=6, deadline=100), J("c11", 2, depth=6, deadline=100), J("c11", 3, depth=5, deadline=100), J("c11", 4, depth=5, deadline=100), J("c11", 5, depth=5, deadline=100)] +
+                 [J("c11", 1, depth=6, deadline=100, opts=SLOW), J("c11", 5, depth=5, deadline=100, opts=SLOW)],
         "thorough": [J("c11", 0, depth=14, deadline=1200), J("c11", 1, depth=9, deadline=1200, max_states=30000000), J("c11", 2, depth=9, deadline=1200, max_states=30000000),
-                     J("c11", 3, depth=8, deadline=1200, max_states=30000000), J("c11", 4, depth=8, deadline=1200, max_states=30000000), J("c11", 5, depth=7, deadline=1200, max_states=30000000)],
+                     J("c11", 3, depth=8, deadline=1200, max_states=30000000), J("c11", 4, depth=8, deadline=1200, max_states=30000000), J("c11", 5, depth=7, deadline=1200, max_states=30000000)] +
+                    [J("c11", 1, depth=9, deadline=1200, max_states=30000000, opts=SLOW), J("c11", 5, depth=7, deadline=1200, max_states=30000000, opts=SLOW)],
     },
 }
 
@@ -170,11 +173,13 @@ PROPS["C16"] = {
 PROPS["C12"] = {
     "level": "model_checking",
     "technique": "explicit-state BFS over triggers, value changes, SYNCs, ticks, NMT changes and parameter writes against a reference TPDO model (71 parameter configurations) + exhaustive sweep over all mapping compositions",
-    "text": "(a) 71 configurations (69, 70: TPDO0 starts as a synchronous TPDO of type 1 / 2 and is re-typed to 254/255 and back by the legal procedure in any NMT state - event SDO 1800h:2=1; 60..68 repeat nine of the others with the two TPDOs being numbers 2 and 3 instead of 0 and 1 - 1802h/1A02h, 1803h/1A03h, lower numbers absent; 36..53 with two event-driven TPDOs, the CiA 301 re-mapping procedure of TPDO0 to 1 or 3 objects while OPERATIONAL and a changed asynchronous object of TPDO1 as additional events; 54..59 with both TPDOs living on inhibit/event timers of their own - (inhibit,event) pairs (3,2|2,0) (3,2|0,3) (0,3|0,4) (2,4|3,3) (0,3|2,0) (3,0|2,2) ticks, i.e. event time shorter than inhibit time, expiries that do not transmit, timer ids handed from one TPDO to the other; TPDO1 maps the 32-bit asynchronous object there and its value changes in the upper byte only): TPDO0 event-driven (type 254/255) x inhibit {0,2,3 ticks} x event time {0,3,4 ticks}, mapped to an asynchronous 8-bit and a 16-bit object; TPDO1 synchronous of type {1,2,3,240}; started in PRE-OP or OPERATIONAL. 21 events: COTPdoTrigPdo, COTPdoTrigObj, dictionary write of the asynchronous object with a changed / an unchanged value, write of the other mapped object, SYNC, tick, NMT start/pre-op/stop/reset communication, SDO writes to 1800h:1 (invalidate/re-validate), :2, :3, :5. Per step the TPDO frames (identifier, DLC, data; in order per identifier, the order among different TPDOs within one step being unspecified) and the COPdoTransmit calls must equal the reference model: only in OPERATIONAL with a valid COB-ID, immediate transmission on a trigger unless the inhibit time runs, exactly one transmission at the end of the inhibit time for any number of triggers, event-timer transmissions exactly one event time after the last transmission, ties inhibit-first, type n on every n-th SYNC. (b) all 223 ordered compositions of 1..8 mapped objects of 1/2/3/4 bytes (<= 8 bytes) x two value patterns: frame == little-endian concatenation, DLC == mapped bytes.",
+    "text": "(a) 71 configurations (69, 70: TPDO0 starts as a synchronous TPDO of type 1 / 2 and is re-typed to 254/255 and back by the legal procedure in any NMT state - event SDO 1800h:2=1; 60..68 repeat nine of the others with the two TPDOs being numbers 2 and 3 instead of 0 and 1 - 1802h/1A02h, 1803h/1A03h, lower numbers absent; 36..53 with two event-driven TPDOs, the CiA 301 re-mapping procedure of TPDO0 to 1 or 3 objects while OPERATIONAL and a changed asynchronous object of TPDO1 as additional events; 54..59 with both TPDOs living on inhibit/event timers of their own - (inhibit,event) pairs (3,2|2,0) (3,2|0,3) (0,3|0,4) (2,4|3,3) (0,3|2,0) (3,0|2,2) ticks, i.e. event time shorter than inhibit time, expiries that do not transmit, timer ids handed from one TPDO to the other; TPDO1 maps the 32-bit asynchronous object there and its value changes in the upper byte only): TPDO0 event-driven (type 254/255) x inhibit {0,2,3 ticks} x event time {0,3,4 ticks}, mapped to an asynchronous 8-bit and a 16-bit object; TPDO1 synchronous of type {1,2,3,240}; started in PRE-OP or OPERATIONAL. 21 events: COTPdoTrigPdo, COTPdoTrigObj, dictionary write of the asynchronous object with a changed / an unchanged value, write of the other mapped object, SYNC, tick, NMT start/pre-op/stop/reset communication, SDO writes to 1800h:1 (invalidate/re-validate), :2, :3, :5. Per step the TPDO frames (identifier, DLC, data; in order per identifier, the order among different TPDOs within one step being unspecified) and the COPdoTransmit calls must equal the reference model: only in OPERATIONAL with a valid COB-ID, immediate transmission on a trigger unless the inhibit time runs, exactly one transmission at the end of the inhibit time for any number of triggers, event-timer transmissions exactly one event time after the last transmission, ties inhibit-first, type n on every n-th SYNC. (b) all 223 ordered compositions of 1..8 mapped objects of 1/2/3/4 bytes (<= 8 bytes) x two value patterns: frame == little-endian concatenation, DLC == mapped bytes. Six of the configurations run once more on a 100 Hz timer with inhibit and event times in units of 10 ms.",
     "note": "a write to 18xxh:5 while the inhibit time runs ends the inhibit time and sends a waiting transmission (the behaviour the repository's unit test pins down); explicit triggers of the synchronous TPDO and inhibit on synchronous TPDOs are outside the statement and not in the alphabet; depth-bounded",
     "jobs": {
-        "quick": [J("c12", c, depth=7, deadline=100, allow_dead=True) for c in range(71)] + [J("c12map")],
-        "thorough": [J("c12", c, depth=10, deadline=1200, max_states=20000000, allow_dead=True) for c in range(71)] + [J("c12map")],
+        "quick": [J("c12", c, depth=7, deadline=100, allow_dead=True) for c in range(71)] + [J("c12map")] +
+                 [J("c12", c, depth=6, deadline=100, allow_dead=True, opts=SLOW) for c in (4, 22, 40, 55, 62, 69)],
+        "thorough": [J("c12", c, depth=10, deadline=1200, max_states=20000000, allow_dead=True) for c in range(71)] + [J("c12map")] +
+                    [J("c12", c, depth=9, deadline=1200, max_states=20000000, allow_dead=True, opts=SLOW) for c in (4, 22, 40, 55, 62, 69)],
     },
 }
 
@@ -259,11 +264,11 @@ CL2 = ["CO_CSDO_N=2", "C19_CLIENT=1"]
 PROPS["C19"] = {
     "level": "model_checking",
     "technique": "deviation-bounded exhaustive enumeration of SDO server behaviours against the real SDO client (sequences of back-to-back transfers, one or two deviations placed at every response step), reference client/server with callback, buffer-guard and timer-pool accounting",
-    "text": "The harness plays the SDO server for client 0: a conforming reference server (expedited for <= 4 bytes, segmented otherwise, junk in unused bytes) plus 16 deviation kinds that can be placed at every response step k of a transfer: abort with matching multiplexer (an ordinary code, and each of the six codes the client generates itself: 0504 0000h, 0503 0000h, 0504 0001h, 0604 0043h, 0607 0012h, 0607 0013h) / other-index / other-sub-index multiplexer, silence, late answer while idle, late answer into the next transfer, wrong toggle, four foreign response types per phase, announced size +-1, expedited answer to a segmented request and vice versa, more data than announced (missing c bit + extra segments, over-long last segment), early c bit, request while busy (both API calls), five kinds of response while idle. A case is a sequence of up to 2 (quick) / 3 (thorough) transfers - direction x every size 1..300, 889, 1000, 1999, 2000 x timing profile (timeout, server delay) in {(2,0),(2,1),(5,0),(5,4)} ticks; uploads additionally from servers that put only 6 (every size) or 4 or 1 (sizes <= 40) data bytes into their non-final segments - separated by idle gaps {0, timeout-1, timeout, timeout+1}, with <= 1 (quick) / <= 2 (thorough) deviations per sequence; plus a 70 s timeout (silent server and a server answering after 65.6 s), a long-timeout transfer behind a short one, and a disabled client (1280h:1/:2 bit 31). The smallest and largest size shards, the probe-pair part and the special part are repeated in a build with two clients (CO_CSDO_N=2) in which the transfers run on client 1 (1281h, server node 6) while client 0 is an idle bystander. User buffers are exact-size heap blocks GUARD|size|GUARD checked after every frame. Oracle per step: request frames on 605h equal the reference client's (initiate, announced size, toggle, n, c, data in order); exactly one completion callback per accepted request with code 0 / the server's abort code / 0504 0000h plus exactly one abort frame after [timeout, timeout+1] ticks without a response; upload buffer equals the server's bytes (re-checked at the end of the sequence); busy => CO_ERR_SDO_BUSY without effect; disabled => refused without frame, callback or timer; responses while idle have no effect; timer action and event occupancy return to the pre-request value; nothing happens in an idle tail after the last transfer.",
+    "text": "The harness plays the SDO server for client 0: a conforming reference server (expedited for <= 4 bytes, segmented otherwise, junk in unused bytes) plus 16 deviation kinds that can be placed at every response step k of a transfer: abort with matching multiplexer (an ordinary code, and each of the six codes the client generates itself: 0504 0000h, 0503 0000h, 0504 0001h, 0604 0043h, 0607 0012h, 0607 0013h) / other-index / other-sub-index multiplexer, silence, late answer while idle, late answer into the next transfer, wrong toggle, four foreign response types per phase, announced size +-1, expedited answer to a segmented request and vice versa, more data than announced (missing c bit + extra segments, over-long last segment), early c bit, request while busy (both API calls), five kinds of response while idle. A case is a sequence of up to 2 (quick) / 3 (thorough) transfers - direction x every size 1..300, 889, 1000, 1999, 2000 x timing profile (timeout, server delay) in {(2,0),(2,1),(5,0),(5,4)} ticks; uploads additionally from servers that put only 6 (every size) or 4 or 1 (sizes <= 40) data bytes into their non-final segments - separated by idle gaps {0, timeout-1, timeout, timeout+1}, with <= 1 (quick) / <= 2 (thorough) deviations per sequence; plus a 70 s timeout (silent server and a server answering after 65.6 s), a long-timeout transfer behind a short one, and a disabled client (1280h:1/:2 bit 31). The smallest and largest size shards, the probe-pair part and the special part are repeated in a build with two clients (CO_CSDO_N=2) in which the transfers run on client 1 (1281h, server node 6) while client 0 is an idle bystander. User buffers are exact-size heap blocks GUARD|size|GUARD checked after every frame. Oracle per step: request frames on 605h equal the reference client's (initiate, announced size, toggle, n, c, data in order); exactly one completion callback per accepted request with code 0 / the server's abort code / 0504 0000h plus exactly one abort frame after [timeout, timeout+1] ticks without a response; upload buffer equals the server's bytes (re-checked at the end of the sequence); busy => CO_ERR_SDO_BUSY without effect; disabled => refused without frame, callback or timer; responses while idle have no effect; timer action and event occupancy return to the pre-request value; nothing happens in an idle tail after the last transfer. Three configurations run once more on a 100 Hz timer (timeouts in units of 10 ms).",
     "note": "where CiA 301 does not fix the client's reaction an allowed set is used: a malformed response may be ignored (then the timeout path is checked) or end the transfer once with a non-zero code and at most one abort frame - never code 0; an object smaller than the buffer or a segmented answer to a <= 4-byte upload may complete with the server's bytes as a prefix or be refused; an abort with a foreign multiplexer may be ignored or taken. The timeout is per response. NMT resets during a transfer are C20's. Second/third transfers after a deviation use 8 probe transfers, not every size",
     "jobs": {
-        "quick": [J("c19", c, deadline=150) for c in range(26)] + [J("c19", c, defs=CL2, deadline=150) for c in (0, 1, 14, 15, 24, 25)],
-        "thorough": [J("c19", c, deadline=550) for c in range(26)] + [J("c19", c, defs=CL2, deadline=550) for c in (0, 1, 14, 15, 24, 25)],
+        "quick": [J("c19", c, deadline=150) for c in range(26)] + [J("c19", c, defs=CL2, deadline=150) for c in (0, 1, 14, 15, 24, 25)] + [J("c19", c, deadline=150, opts=SLOW) for c in (0, 1, 24)],
+        "thorough": [J("c19", c, deadline=550) for c in range(26)] + [J("c19", c, defs=CL2, deadline=550) for c in (0, 1, 14, 15, 24, 25)] + [J("c19", c, deadline=550, opts=SLOW) for c in (0, 1, 24)],
     },
 }
 
